@@ -43,7 +43,7 @@ SITE = {"M_bfgs": "tf_pwa/fit.py fit_scipy BFGS/CG", "M_lbfgsb": "tf_pwa/fit.py 
 R2r = "A->R_BD.CR_BD->B.D_total_0r"; R2i = "A->R_BD.CR_BD->B.D_total_0i"
 R3r = "A->R_CD.BR_CD->C.D_total_0r"; R3i = "A->R_CD.BR_CD->C.D_total_0i"
 
-CSETS = ["free", "fixed", "tied", "bounds", "gauss"]
+CSETS = ["free", "fixed", "tied", "tied_neg", "bounds", "bound0", "gauss"]
 
 
 def branch_of(method):
@@ -68,6 +68,17 @@ def config_dict(cset):
     elif cset == "tied":
         constr["var_equal"] = [[R2r, R3r]]
         truth = {R2r: 0.7, R2i: 0.7, R3i: -1.1}
+    elif cset == "tied_neg":
+        # shared radius that the data want NEGATIVE (independent phases): the post-fit standardisation must not flip
+        # the head of the tie group alone
+        constr["var_equal"] = [[R2r, R3r]]
+        truth = {R2r: -0.7, R2i: 0.7, R3i: -1.1}
+    elif cset == "bound0":
+        # one-sided range whose finite end is exactly 0, active: the phase is fixed pi away from what the data prefer
+        constr["var_range"] = {R3r: [0, None]}
+        constr["fix_var"] = {R3i: -1.1 + math.pi}
+        truth = {R2r: 0.8, R2i: 0.7, R3r: -0.6}   # data generated with a NEGATIVE radius: the allowed optimum sits on r = 0
+        start = dict(truth); start[R3r] = 0.3
     elif cset == "bounds":
         # two-sided, lower-only, upper-only, and a bounded radius whose range is negative
         part["R_BC"].update({"float": "mg", "mass_min": 0.4, "mass_max": 0.6, "width_min": 0.01})
@@ -332,7 +343,7 @@ def run(ctx):
     rnd = random.Random(ctx.seed * 1000003 + 8)
     quick = ctx.tier == "quick"
     ctx.rule = ("cells = minimiser name x constraint set {free, fixed (negative fixed radius + fixed phase), tied (var_equal), bounds "
-                "(two-sided, lower, upper, negative-range radius), gauss} x {converged, maxiter=2}; all cells of a constraint set run in one "
+                "(two-sided, lower, upper, negative-range radius), tied with a negative shared radius, a one-sided range ending at 0 (active), gauss} x {converged, maxiter=2}; all cells of a constraint set run in one "
                 "session; 60 data / 300 phase-space events, 3 spin-0 chains; start = truth x U(0.95,1.05); distinct = distinct cells; "
                 "non-trivial = the optimiser moved the point (x* differs from the start)")
     common.theorem_stage(ctx)
